@@ -869,3 +869,137 @@ def check_c12(prop, tier, replay, selftest):
     res.assumptions = ["TLC evaluates the Trace modules correctly", "cargo features are forwarded by the harness crate to adf_bdd (default-features = false)",
                        "quick tier: 4 of the 11 non-default combinations; thorough: all"]
     return res.finish()
+
+
+# ------------------------------------------------------------------ C16 / C17 (web service)
+import fcntl
+
+SERVER_RULE = ("records = requests, responses, database commands and database snapshots of the unmodified adf-bdd-server binary between a raw "
+               "HTTP client (one cookie jar per principal) and the MongoDB wire stub: the straight-line happy path (both parsings x all six "
+               "strategies, double solve, unparseable code), seeded multi-user scenarios (1-3 principals; register / login with right, wrong and "
+               "foreign credentials / logout / info / rename / delete account / add incl. unparseable, panicking and unnamed problems / solve / "
+               "get / list / delete, probes of foreign names, anonymous requests, requests before a task finished), and the two race shapes of the "
+               "known findings replayed with the stub holding a command; distinct = distinct (request, response status, shown problem); non-trivial = "
+               "response carries at least one problem with a stored result")
+
+
+def server_trace(binary, tier, tag):
+    bindir = build_repo_bins(("adf-bdd-server",), extra=("--config", "profile.dev.package.argon2.opt-level=3"))
+    out = os.path.join(WORK, "server_%s.ndjson" % tag)
+    os.makedirs(WORK, exist_ok=True)
+    lock = open(os.path.join(VERIF, ".server.lock"), "w")
+    fcntl.flock(lock, fcntl.LOCK_EX)          # the server binds 0.0.0.0:8080 unconditionally
+    try:
+        try:
+            run_harness(binary, ["server", "--tier", tier, "--out", out, "--stub", os.path.join(os.path.dirname(binary), "mongostub"),
+                                 "--server", os.path.join(bindir, "adf-bdd-server"), "--work", WORK], timeout=7200)
+        except ToolError as e:
+            raise ToolError("web service session failed (port 8080 / 27117 busy, or the server did not start): %s" % e)
+    finally:
+        fcntl.flock(lock, fcntl.LOCK_UN)
+        lock.close()
+    return out
+
+
+def server_collect(prop, res, tr):
+    seen = set()
+    nreq = 0
+    for line in tr["lines"]:
+        r = json.loads(line)
+        if r.get("kind") != "http":
+            continue
+        nreq += 1
+        shown = []
+        if r["status"] == 200 and r["op"] == "get":
+            shown = [r["body"]["problem"]]
+        elif r["status"] == 200 and r["op"] == "list":
+            shown = r["body"]["problems"]
+        for pr in shown:
+            if any(e["type"] == "Some" and e["strategy"] != "Parse" for e in pr["per"]):
+                seen.add(hashlib.sha1(json.dumps([r["op"], pr["code"], [(e["strategy"], e["type"], [m["ac"] for m in e["models"]]) for e in pr["per"]]]).encode()).hexdigest())
+    for gl, t in tr["tuples"]:
+        if gl is None or t[0] != "MISMATCH" or t[3] != prop:
+            continue
+        rec = json.loads(tr["lines"][gl - 1])
+        what = t[4][0] if isinstance(t[4], list) else t[4]
+        racetag = t[5]
+        sig = None
+        if racetag == "rename-window" and what == "foreign-problem-in-response":
+            sig = {"race": "rename-window", "predicate": "foreign-problem-in-response"}
+        elif racetag == "stale-task-write" and what in ("stored-models-differ-from-definition-for-code", "graph-not-faithful"):
+            sig = {"race": "stale-task-write", "predicate": "stored-result-of-other-code"}
+        kf = known_match(prop, sig) if sig else None
+        if kf:
+            res.known(kf, "replayed on the binary with the stub as scheduler: %s (record %s)" % (what, rec["id"]))
+            continue
+        # replay payload: the whole scenario up to the failing record
+        j = gl - 1
+        while j > 0 and not is_reset(tr["lines"][j]):
+            j -= 1
+        seq = [json.loads(x) for x in tr["lines"][j:gl]]
+        slim = [({k: v for k, v in s.items() if k not in ("dump", "log")} if s.get("kind") == "db" else s) for s in seq[:-1]] + [seq[-1]]
+        res.violation("%s_%s" % (rec["id"], json.dumps(t[4])[:50]), {"property": prop, "component": "server", "scenario": slim, "mismatch": t},
+                      "%s %s at %s: %s %s -> %s" % (prop, json.dumps(t[4]), rec["id"], rec.get("op", "db snapshot"), json.dumps(rec.get("args", ""))[:160], rec.get("status", "")))
+    res.evaluations = nreq
+    res.distinct = seen
+    res.rule = SERVER_RULE
+    gets = [json.loads(l) for l in tr["lines"][:400] if '"op":"get"' in l and '"status":200' in l]
+    res.samples = [{"op": g["op"], "args": g["args"], "status": g["status"], "code": g["body"]["problem"]["code"],
+                    "results": [(e["strategy"], e["type"], [m["ac"] for m in e["models"]]) for e in g["body"]["problem"]["per"]]} for g in gets[2:4]] or [{"note": "no get"}]
+
+
+def _server_check(prop, tier, selftest, mc_cfgs, corrupt):
+    res = Result(prop, tier)
+    binary = build_harness()
+    out = server_trace(binary, tier, prop)
+    if selftest:
+        ok = selftest_corrupt("Trace_Server", out, corrupt, boundary=is_reset)
+        print("SELFTEST %s: %s" % (prop, "binding demonstrated" if ok else "FAILED"))
+        return 0 if ok else 2
+    for cfg in mc_cfgs:
+        res.add_mc(require_mc(tlc_mc("Server", cfg, workers=12, timeout=3000)))
+    tr = tlc_trace("Trace_Server", out, boundary=is_reset, min_per_shard=30)
+    res.add_trace(tr)
+    server_collect(prop, res, tr)
+    res.assumptions = ["TLC evaluates AdfSem / AdfSyntax / GraphOK correctly", "the stub implements the subset of MongoDB semantics the server relies on (equality filters, $set, "
+                       "replacement, unique index); unknown commands are reported", "cookies are opaque bearer tokens held by a well-behaved client (one jar per principal)",
+                       "the 120 s compute timeout and cookie expiry are covered by the model only", "cryptographic strength is not assessed"]
+    return res.finish()
+
+
+@register("C16")
+def check_c16(prop, tier, replay, selftest):
+    if selftest:
+        # the model distinguishes the shipped and the repaired continuation, and knows the stale write
+        r1 = tlc_mc("Server", "Server_c16_f8.cfg", workers=8, timeout=600)
+        r2 = tlc_mc("Server", "Server_c16_strict.cfg", workers=8, timeout=600)
+        print("SELFTEST C16 model: shipped continuation %s the forever-running task; strict results %s the stale write" %
+              ("rediscovers" if r1["violation"] else "MISSES", "rediscovers" if r2["violation"] else "MISSES"))
+        if not (r1["violation"] and r2["violation"]):
+            return 2
+    def corrupt(rec):
+        if rec.get("kind") != "http" or rec.get("op") != "get" or rec.get("status") != 200:
+            return None
+        for e in rec["body"]["problem"]["per"]:
+            if e["type"] == "Some" and e["strategy"] != "Parse" and e["models"] and e["models"][0]["ac"]:
+                e["models"][0]["ac"][0] = 1 if e["models"][0]["ac"][0] != 1 else 0
+                return rec
+        return None
+    return _server_check(prop, tier, selftest, ["Server_c16.cfg"] + (["Server_c16_big.cfg"] if tier == "thorough" else []), corrupt)
+
+
+@register("C17")
+def check_c17(prop, tier, replay, selftest):
+    if selftest:
+        r1 = tlc_mc("Server", "Server_c17_mut.cfg", workers=8, timeout=600)
+        r2 = tlc_mc("Server", "Server_c17_strict.cfg", workers=8, timeout=600)
+        print("SELFTEST C17 model: dropping the owner filter from get %s an unexplained foreign read; strict isolation %s the rename window" %
+              ("produces" if r1["violation"] and "NoUnexplainedRead" in r1["violation"] else "DOES NOT produce", "rediscovers" if r2["violation"] else "MISSES"))
+        if not (r1["violation"] and r2["violation"]):
+            return 2
+    def corrupt(rec):
+        if rec.get("kind") != "http" or rec.get("op") != "get" or rec.get("status") != 200 or rec.get("p") == 0:
+            return None
+        rec["p"] = rec["p"] % 3 + 1          # the same answer, handed to somebody else
+        return rec
+    return _server_check(prop, tier, selftest, ["Server_c17.cfg"] + (["Server_c17_big.cfg"] if tier == "thorough" else []), corrupt)
